@@ -272,8 +272,8 @@ pub const CONTEXTS: &[&str] = &[
     "while true\n@Bbreak\n\n@T",
     "@Fouter takes k\nfun taking k\ngive back k\n\nouter taking 1\n@T",
     "@Fouter takes k\ngive back fun taking k\n\nsay outer taking 1\n@T",
-    "@Fsay 1 plus fun taking 1, fun taking 2\n@T",
-    "@Frock w with fun taking 1, fun taking 2\n@T",
+    "@Fsay 1 plus 2, fun taking 2\n@T",
+    "@Frock w with 5, fun taking 2\nsay w at 1\n@T",
     "@Frock w with 5, 6\nsay w at fun taking 0\n@T",
     "@Flet w at fun taking 0 be 1\n@T",
     "@Fput 1 into z\nlet z be with fun taking 1\n@T",
